@@ -87,3 +87,14 @@ for _nm, _h in (("batch", "h_cli_batch"), ("stream", "h_cli_stream")):
       callees={"argtable3 (arg_lit0 ... arg_parse)": "contract stubs: harness-owned option records with symbolic counts, no parse error", "scan_file, stdin_buffer, mmd_* entry points, token_pool_*": "contract stubs recording their arguments in order",
                "fopen/fwrite/fputs/fclose, dirname (cuts its argument in place, as glibc), realpath": "contract stubs", "d_string_*": "executable specification lib/ds_sink.c"},
       min_obligations=20, timeout=600, cost=40, assumptions=[NOFAIL, "argument parsing itself (argtable3, 5 kLOC third-party) is trusted: the unit starts from parsed option records"])
+
+# ---- -t FORMAT: the format handed to the library and the batch output extension, one unit per format name
+for _fs, _fe, _fx in (("latex", "FORMAT_LATEX", ".tex"), ("beamer", "FORMAT_BEAMER", ".tex"), ("memoir", "FORMAT_MEMOIR", ".tex"), ("mmd", "FORMAT_MMD", ".mmdtext"), ("odt", "FORMAT_ODT", ".odt"), ("fodt", "FORMAT_FODT", ".fodt"),
+                      ("epub", "FORMAT_EPUB", ".epub"), ("bundle", "FORMAT_TEXTBUNDLE", ".textbundle"), ("bundlezip", "FORMAT_TEXTBUNDLE_COMPRESSED", ".textpack"), ("opml", "FORMAT_OPML", ".opml"), ("itmz", "FORMAT_ITMZ", ".itmz")):
+    U("c06_cli_main_batch_to_" + _fs, ["C06"], "h_cli_batch", ["C06/cli.c"], ["main.c"], plain=True, lib=("lib/ds_sink.c",), kind="bounded",
+      defines=["-DSINK_CAP=24", '-DFMT_STR="%s"' % _fs, "-DFMT_ENUM=" + _fe, '-DFMT_EXT="%s"' % _fx],
+      pre_instrument=["--generate-function-body", "^(?!__CPROVER_|malloc$|free$|calloc$|strcmp$|strlen$|strcpy$|strrchr$|memcpy$|verif_).*$", "--generate-function-body-options", "nondet-return"],
+      cbmc_flags=["--unwind", "26", "--unwinding-assertions", "--object-bits", "10"],
+      bounds={"mode": "-b -t %s with two files 'a/x.md' 'bb/y.t'" % _fs, "flag options": "every combination (symbolic counts)", "unwind": 22},
+      functions=["main", "filename_with_extension"], callees={"as c06_cli_main_batch": "argtable3, streams, dirname, library entry points by contract"},
+      min_obligations=20, timeout=600, cost=10, assumptions=[NOFAIL, "argument parsing itself (argtable3) is trusted"])
